@@ -112,6 +112,9 @@ def fn_code_hash(fn: Callable, salt: str = None, environment: bytes = None) -> s
                 o.co_nlocals,
                 o.co_stacksize,
                 o.co_varnames,
+                # (Python >= 3.11) which instructions a try block protects is not in the bytecode
+                base64.b64encode(getattr(o, "co_exceptiontable", b"")).decode("utf-8"),
+                getattr(o, "co_posonlyargcount", 0),
             ]
             if o is top_level_code and (defaults or kwdefaults):
                 # Default parameter values live on the function, not on its code object
